@@ -47,6 +47,19 @@ CHECK_DEADLOCK FALSE
 """
 
 
+def absorb(chk, recs, label):
+    """A property violation takes precedence over model mismatches of the same run (the shared absorb stops at
+    the first mismatch): when the driver found violations that are not known findings, its mismatch records
+    are set aside and noted, so that the check ends with VIOLATION / exit 1 rather than exit 2."""
+    known = {k["key"] for k in chk.known}
+    fresh = [r for r in recs if r.get("kind") == "violation" and r.get("key") not in known]
+    mism = [r for r in recs if r.get("kind") == "mismatch"]
+    if fresh and mism:
+        chk.notes.append("%s: %d model mismatches set aside because the run found violations" % (label, len(mism)))
+        recs = [r for r in recs if r.get("kind") != "mismatch"]
+    chk.absorb(recs, label)
+
+
 def run(chk):
     thorough = chk.tier == "thorough"
     rng = random.Random(vf.seed() * 131 + 9)
@@ -65,7 +78,7 @@ def run(chk):
     path = os.path.join(vf.scratch(), "cp.jsonl")
     vf.write_json_lines(path, behs)
     recs, _ = vf.run_driver(binary, ["replay", path, "16"])
-    chk.absorb(recs, "replay on CompactToBig/BigToCompact/CalcWork/CheckProofOfWork/CalcNextRequiredDifficulty with lifts")
+    absorb(chk, recs, "replay on CompactToBig/BigToCompact/CalcWork/CheckProofOfWork/CalcNextRequiredDifficulty with lifts")
 
     # binding self-tests: one expected value corrupted per mechanism
     def corrupt(kind, pred, mut, name):
